@@ -14,6 +14,7 @@ STATIC_THEOREMS = [
     'SnapraidVerif.Props.C15.timelimit_le_recent',
     'SnapraidVerif.Props.C15.countlimit_le',
     'SnapraidVerif.Props.C15.books',
+    'SnapraidVerif.Props.C15.auto_bound',
 ]
 
 NOW = 1_700_000_000
